@@ -220,6 +220,7 @@ class SuperSpeedStreamInEndpoint(Elaboratable):
             interface.tx_sequence_number    .eq(Mux(advance_sequence, next_sequence_number, sequence_number)),
             interface.tx_length             .eq(read_fill_count),
             interface.tx_endpoint_number    .eq(self._endpoint_number),
+            handshakes_out.endpoint_number  .eq(self._endpoint_number),
         ]
 
         with m.FSM(domain='ss'):
